@@ -65,6 +65,9 @@ void g_reset(void);
 void g_revoke(void *p);                         /* make the slot of p PROT_NONE until g_reset */
 void g_readonly(void *p, int ro);               /* slot PROT_READ / PROT_READ|WRITE */
 const char *g_last_damage(void);
+void *g_persist(size_t size, int placement);       /* guarded, never recycled */
+extern size_t g_canary_span;
+extern int g_strict_free;                          /* recycled slots become PROT_NONE until reused */
 
 /* ---------- fault capture ---------- */
 extern sigjmp_buf v_fault_jmp;
